@@ -74,6 +74,30 @@ class _Stop(Exception):
     pass
 
 
+def text_block_loops(fnode):
+    """loops `for c in <stream>: ... <list>.append(c)` of a function"""
+    out = []
+    for lp in [n for n in walk_no_nested(fnode) if isinstance(n, ast.For) and isinstance(n.target, ast.Name)]:
+        apps = [c for c in walk_no_nested(lp) if isinstance(c, ast.Call) and isinstance(c.func, ast.Attribute) and c.func.attr == 'append'
+                and isinstance(c.func.value, ast.Name) and [norm(a) for a in c.args] == [lp.target.id]]
+        if apps:
+            out.append((lp, apps[0].func.value.id))
+    return out
+
+
+def text_block_function(fn):
+    """(loop, list name) when fn is a helper `def h(stream, ...)` whose single text-block loop iterates its first parameter and
+    which returns the collected list"""
+    ps = fn.params()
+    lps = text_block_loops(fn.node)
+    if len(lps) != 1 or not ps or norm(lps[0][0].iter) != ps[0]:
+        return None
+    lst = lps[0][1]
+    if not any(isinstance(r, ast.Return) and r.value is not None and norm(r.value) == lst for r in ast.walk(fn.node)):
+        return None
+    return lps[0]
+
+
 class TableAnalysis:
     """path enumeration of the command loop body over (command letter, range present) with affine values"""
 
@@ -130,7 +154,17 @@ class TableAnalysis:
         if isinstance(e, ast.Name):
             if e.id in env:
                 return env[e.id]
+            cv = self.f.module.consts.get('', {}).get(e.id)
+            if isinstance(cv, int) and not isinstance(cv, bool):
+                return Aff.const(cv)
+            if isinstance(cv, (str, bytes)):
+                return ('const', cv)
+            if isinstance(cv, (tuple, list)) and all(isinstance(x, (str, bytes)) for x in cv):
+                return ('tuple', [('const', x) for x in cv])
             raise AnalysisError('%s: name %s outside the modelled environment' % (self.f.site, e.id))
+        if isinstance(e, ast.Call) and isinstance(e.func, ast.Name) and e.func.id in self.f.module.funcs and text_block_function(self.f.module.funcs[e.func.id]) is not None:
+            # a helper that collects the lines of the text block from the stream (its loop is analysed by C18.R3)
+            return ('textblock', True)
         if isinstance(e, ast.Call) and norm(e.func) == 'int' and len(e.args) == 1:
             v = self.ev(e.args[0], env, facts)
             if isinstance(v, tuple) and v[0] == 'numstr':
@@ -356,47 +390,104 @@ def r2_r4_table(rep, src, roles):
 
 
 def r3_terminator(rep, src):
+    """the loop that collects the text of an a/c command -- in patches_from_ed_script itself or in a helper it calls -- ends
+    successfully only at the "." line; when the stream is exhausted (or yields the empty string) no patch is produced"""
     f = src.func(SITE)
-    g = cfg.CFG(f.node)
-    outer = [s for s in f.node.body if isinstance(s, ast.For)][0]
-    inner = [n for n in walk_no_nested(outer) if isinstance(n, ast.For)]
-    if len(inner) != 1:
-        raise AnalysisError('%s: expected one text-block loop' % f.site)
-    inner = inner[0]
+    cands = []
+    for lp, lst in text_block_loops(f.node):
+        # the text-block loop is nested in the command loop
+        if any(isinstance(a_, ast.For) for a_ in ancestors_of(lp, f.node)):
+            cands.append((f, lp, lst, 'inline'))
+    for c in ast.walk(f.node):
+        if isinstance(c, ast.Call) and isinstance(c.func, ast.Name) and c.func.id in f.module.funcs:
+            h = f.module.funcs[c.func.id]
+            tb = text_block_function(h)
+            if tb is not None:
+                rep.saw_func(h)
+                cands.append((h, tb[0], tb[1], 'helper'))
+    if len(cands) != 1:
+        raise AnalysisError('%s: expected one text-block loop (found %d)' % (f.site, len(cands)))
+    fn, inner, lst, how = cands[0]
+    g = cfg.CFG(fn.node)
     t = g.node_of[inner]
-    head = g.node_of[outer]
-    yields = [n for n in g.stmts() if n.kind == 'stmt' and isinstance(n.ast, ast.Expr) and isinstance(n.ast.value, ast.Yield)
-              and n.lineno > inner.lineno]
-    if not yields:
-        raise AnalysisError('%s: no yield after the text-block loop' % f.site)
+    if how == 'inline':
+        outer = [a_ for a_ in ancestors_of(inner, fn.node) if isinstance(a_, ast.For)][-1]
+        avoid = [g.node_of[outer].id, t.id]
+        goals = [n for n in g.stmts() if n.kind == 'stmt' and isinstance(n.ast, ast.Expr) and isinstance(n.ast.value, ast.Yield) and n.lineno > inner.lineno]
+    else:
+        avoid = [t.id]
+        goals = [n for n in g.nodes if n.kind == 'return' and n.ast is not None and n.ast.value is not None and norm(n.ast.value) == lst]
+    if not goals:
+        raise AnalysisError('%s: the collected text is never handed on' % fn.site)
     exhausted = [d for d, lab in g.succ[t.id] if lab == 'exhausted']
     bad = None
-    for s in exhausted:
-        for y in yields:
-            if s == y.id or g.exists_path(s, y.id, avoid=[head.id, t.id]):
+    for s_ in exhausted:
+        for y in goals:
+            if s_ == y.id or g.exists_path(s_, y.id, avoid=avoid):
                 bad = y
     if bad is not None:
-        rep.fail('C18.R3', f.site, 'text block must end with "."',
+        rep.fail('C18.R3', fn.site, 'text block must end with "."',
                  'when the input ends inside the text of an a/c command the loop falls through to `%s`: an unterminated block '
-                 'produces a patch instead of ValueError' % norm(bad.ast), where='%s:%d' % (f.module.relpath, inner.lineno))
+                 'produces a patch instead of ValueError' % norm(bad.ast), where='%s:%d' % (fn.module.relpath, inner.lineno))
     else:
-        rep.ok('C18.R3', f.site, 'text block must end with "."', 'the loop-exhaustion edge cannot reach the yield')
-    # the terminator test and verbatim append
-    brk = [n for n in walk_no_nested(inner) if isinstance(n, ast.Break)]
-    okterm = False
-    for b in brk:
-        p = b._parent
-        if isinstance(p, ast.If) and isinstance(p.test, ast.Compare) and isinstance(p.test.ops[0], ast.In):
+        rep.ok('C18.R3', fn.site, 'text block must end with "."', 'the loop-exhaustion edge cannot reach the %s' % ('yield' if how == 'inline' else 'return of the text'))
+    # the terminator: the test that leaves the loop successfully compares the line with exactly the "." line (str and bytes)
+    lv = inner.target.id
+    consts = fn.module.consts.get('', {})
+
+    def const_set(e):
+        if isinstance(e, (ast.Tuple, ast.List, ast.Set)):
             try:
-                vals = set(ast.literal_eval(p.test.comparators[0]))
+                return set(ast.literal_eval(e))
             except ValueError:
-                vals = set()
-            if vals and vals <= {'.\n', '.', b'.\n', b'.'} and {'.\n', b'.\n'} <= vals:
-                okterm = True
+                return None
+        if isinstance(e, ast.Constant):
+            return {e.value}
+        if isinstance(e, ast.Name) and isinstance(consts.get(e.id), (tuple, list, frozenset, str, bytes)):
+            v = consts[e.id]
+            return set(v) if isinstance(v, (tuple, list, frozenset)) else {v}
+        return None
+    okterm = False
+    why = 'no test of the line against the "." terminator leaves the loop'
+    for test in [n for n in walk_no_nested(inner) if isinstance(n, ast.If)]:
+        tt = test.test
+        if not (isinstance(tt, ast.Compare) and len(tt.ops) == 1 and norm(tt.left) == lv and isinstance(tt.ops[0], (ast.In, ast.Eq))):
+            continue
+        vals = const_set(tt.comparators[0])
+        if vals is None or not any(isinstance(v, (str, bytes)) and v.strip() in ('.', b'.') for v in vals):
+            continue
+        leaves_ok = any(isinstance(b_, ast.Break) for b_ in test.body) if how == 'inline' else \
+            any(isinstance(b_, ast.Return) and b_.value is not None and norm(b_.value) == lst for b_ in test.body)
+        if not leaves_ok:
+            why = 'the "." test does not end the block'
+            continue
+        if vals <= {'.\n', '.', b'.\n', b'.'} and {'.\n', b'.\n'} <= vals:
+            okterm = True
+        else:
+            why = 'the block is ended by %r, not by exactly the "." line' % sorted(map(repr, vals))
+    for c in ast.walk(inner):
+        # a relaxed comparison (strip / startswith) would end the block at lines that merely look like the terminator
+        if isinstance(c, ast.Call) and isinstance(c.func, ast.Attribute) and c.func.attr in ('strip', 'rstrip', 'lstrip', 'startswith') and norm(c.func.value) == lv:
+            okterm = False
+            why = 'the line is compared after %s(): text lines such as ". " or ".\\r\\n" end the block early' % c.func.attr
     if okterm:
-        rep.ok('C18.R3', f.site, 'terminator literal', "'.' line for str and bytes", nontrivial=False)
+        rep.ok('C18.R3', fn.site, 'terminator literal', "'.' line for str and bytes", nontrivial=False)
     else:
-        rep.fail('C18.R3', f.site, 'terminator literal', 'the text block is not ended by exactly the "." line (str and bytes)', where=f.where)
+        rep.fail('C18.R3', fn.site, 'terminator literal', 'the text block is not ended by exactly the "." line (str and bytes): ' + why, where=fn.where)
+
+
+def ancestors_of(node, root):
+    """chain of ancestors of node inside root (outermost last)"""
+    par = {}
+    for p_ in ast.walk(root):
+        for c_ in ast.iter_child_nodes(p_):
+            par[id(c_)] = p_
+    out = []
+    cur = node
+    while id(cur) in par:
+        cur = par[id(cur)]
+        out.append(cur)
+    return out
 
 
 def r5_application(rep, src):
